@@ -99,6 +99,7 @@ func (f *Substitute) Call(s *slip.Scope, args slip.List, depth int) (result slip
 	switch seq := args[2].(type) {
 	case nil:
 		// nothing to replace
+		sr.checkBounds(0)
 	case slip.List:
 		dup := make(slip.List, len(seq))
 		copy(dup, seq)
@@ -171,6 +172,9 @@ func parseSubstituteArgs(f slip.Object, s *slip.Scope, args slip.List, depth int
 	if v, ok := slip.GetArgsKeyValue(kargs, slip.Symbol(":end")); ok {
 		switch tv := v.(type) {
 		case slip.Fixnum:
+			if tv < 0 {
+				slip.TypePanic(s, depth, ":end", v, "non-negative fixnum")
+			}
 			sr.end = int(tv)
 		case nil:
 			// leave as -1
@@ -191,10 +195,21 @@ func parseSubstituteArgs(f slip.Object, s *slip.Scope, args slip.List, depth int
 	return &sr
 }
 
-func (sr *subRep) replace(seq slip.List) slip.Object {
-	if sr.end < 0 || len(seq) < sr.end {
-		sr.end = len(seq)
+// checkBounds panics unless start and end are valid bounding indices for a
+// sequence of the given size. An end that was not provided or was nil is set
+// to size.
+func (sr *subRep) checkBounds(size int) {
+	if sr.end < 0 {
+		sr.end = size
 	}
+	if size < sr.end || sr.end < sr.start {
+		slip.ErrorPanic(sr.s, sr.depth, "bounding indices %d and %d are invalid for sequence of length %d",
+			sr.start, sr.end, size)
+	}
+}
+
+func (sr *subRep) replace(seq slip.List) slip.Object {
+	sr.checkBounds(len(seq))
 	if sr.count < 0 {
 		sr.count = len(seq)
 	}
@@ -235,9 +250,7 @@ func (sr *subRep) maybe(seq slip.List, i int) bool {
 }
 
 func (sr *subRep) replaceBytes(seq []byte) slip.Object {
-	if sr.end < 0 || len(seq) < sr.end {
-		sr.end = len(seq)
-	}
+	sr.checkBounds(len(seq))
 	if sr.count < 0 {
 		sr.count = len(seq)
 	}
